@@ -378,7 +378,7 @@ INITIAL_STATE = "1/1/1/1/0/0/0/0/0/0/0/0"
 NAME_IDS = {}
 
 
-def predict_ops(prog, kind, arch, mode32, has_base=False):
+def predict_ops(prog, kind, arch, mode32, has_base=False, bstate=None):
     """program of the harness -> operations of the lifecycle model's SProg (counter effects computed by the proven model), or
     None when the counter effects depend on things the model does not have (a Builder's .addrtab appears during serialisation
     and only if the call node is reached)."""
@@ -393,12 +393,23 @@ def predict_ops(prog, kind, arch, mode32, has_base=False):
             out.append("l" + op[1:])
         elif c == "n":
             out.append("n%d" % NAME_IDS.setdefault(op[1:], len(NAME_IDS) + 1))
+            if bstate is not None:
+                bstate["z"] = True   # a refused (duplicate) name gives an invalid label: a reference to it stops the serialisation too
         elif c == "s":
             out.append("s")
         elif c == "k":
-            if arch == "x" and not mode32 and (kind == "b" or has_base):
-                return None          # Builder: decided during serialisation; known base address: the call may be encoded directly
+            if arch == "x" and not mode32 and has_base:
+                return None          # known base address: the call may be encoded directly, without an address-table entry
+            if kind == "b" and arch == "x" and not mode32:
+                bstate["k"] = True   # Builder: the .addrtab section appears when finalize() serialises the call (see 'Z' below)
             if kind == "a" and arch == "x" and not mode32:
+                out.append("a")
+        elif kind == "b" and c == "z":
+            bstate["z"] = True       # an invalid instruction stops the serialisation: what is behind it is never reached
+        elif kind == "b" and c == "Z":
+            if bstate["z"] and bstate["k"]:
+                return None          # whether the call node is reached depends on the serialisation order
+            if bstate["k"]:
                 out.append("a")
         elif kind == "c":
             if c == "F":
@@ -431,6 +442,7 @@ def model_script(case, trace, counters=None):
     cur32 = pend32 = False
     cur_base = pend_base = False
     unpredictable = False          # until the next reset-like step
+    bstate = {"k": False, "z": False}   # Builder: absolute call / invalid instruction recorded since the last reset
     for st, obs in zip(steps, states):
         cur = obs.split("/")
         if st[:2] in ("G:", "P:"):
@@ -438,7 +450,7 @@ def model_script(case, trace, counters=None):
             if min(d) < 0:
                 return None          # a program cannot remove sections / labels / relocations / registers / annotations
             prog = st[2:]
-            ops = None if unpredictable else predict_ops(prog, kind, arch, cur32, cur_base)
+            ops = None if unpredictable else predict_ops(prog, kind, arch, cur32, cur_base, bstate)
             if ops is None:
                 unpredictable = True
                 out.append("G%d.%d.%d.%d.%d.%s" % (tuple(d) + (cur[10],)))
@@ -451,12 +463,6 @@ def model_script(case, trace, counters=None):
                 out.append("P%d.%s:%s" % (d[2], cur[10], "+".join(ops)))
                 if counters is not None:
                     counters["predicted_programs"] = counters.get("predicted_programs", 0) + 1
-            if kind == "c":
-                # a function left open (history only) or a failed add_func make what follows depend on Compiler error paths
-                ops_l = prog.split(",")
-                nf, ne = sum(1 for o in ops_l if o[:1] == "F"), sum(1 for o in ops_l if o == "E")
-                if nf != ne:
-                    unpredictable = True
         elif st == "NHa":
             out.append("NH")
         elif st[0] in "HBE" and st not in ("EL1", "EL0"):
@@ -473,8 +479,13 @@ def model_script(case, trace, counters=None):
             cur32 = pend32
             cur_base = pend_base
             unpredictable = False
+            bstate = {"k": False, "z": False}
         elif st == "RI":
             unpredictable = False
+            bstate = {"k": False, "z": False}
+        elif st in ("DA", "NE"):
+            bstate = {"k": False, "z": False}       # the Builder's node list is cleared; the holder (and a possibly unknown
+                                                    # .addrtab state) stays, so `unpredictable` stays as it is
         prev = cur
     return t[1] + " " + " ".join(out)
 
